@@ -1143,7 +1143,7 @@ func TestVerifC14Seq(t *testing.T) {
 	}
 	rep := verifutil.NewReport()
 	defer rep.Write()
-	nScen := envIntC14("VERIF_C14_NSCEN", verifutil.Scale(6, 60))
+	nScen := envIntC14("VERIF_C14_NSCEN", verifutil.Scale(6, 80))
 	nOps := verifutil.Scale(500, 900)
 	for sc := 0; sc < nScen; sc++ {
 		var progress int64
